@@ -549,10 +549,9 @@ func GetFingerprint(q string) string {
 							fmt.Println("Hex/binary value")
 						}
 						// We're at the first quote char of x'0F'
-						// (or b'0101', etc.), so -2 for the quote char and
-						// the x or b char to copy anything before and up to
-						// this value.
-						cpToOffset = -2
+						// (or b'0101', etc.), so -1 for the x or b char to
+						// copy anything before and up to this value.
+						cpToOffset = qi - 1
 					}
 				}
 			}
